@@ -101,7 +101,7 @@ func (b *TrepBox) EncodeSW(sw bits.SliceWriter) error {
 			return err
 		}
 	}
-	return nil
+	return sw.AccError()
 }
 
 // Info - write box-specific information
